@@ -804,8 +804,8 @@ func genTunnelWith(r *hx.Rand, order string) tunIn {
 		}
 	case len(segs) > 0 && r.Chance(1, 50):
 		// a small configured dial timeout, and a client that goes on sending long after it
-		in.DialMs = r.Range(50, 80)
-		in.PauseMs = 3*in.DialMs + 20
+		in.DialMs = r.Range(250, 350) // small, but far above what a loopback connect takes even on a loaded machine
+		in.PauseMs = 3*in.DialMs + 50
 		in.Hold = r.Intn(len(segs))
 		in.Pxy = !r.Chance(1, 3)
 	}
@@ -840,7 +840,7 @@ func tunnelCorpus() []interface{} {
 				Csegs: cs, Usegs: []string{}, Order: "halfclose", Reply: []string{hx2([]byte("REPLY"))}, Paced: true})
 		}
 	}
-	// late client data: configured dial timeout 60 ms, PROXY option, the client goes on after 200 ms
+	// late client data: configured dial timeout 300 ms, PROXY option, the client goes on after 950 ms
 	for _, p := range []string{"tcp", "sni", "dyn"} {
 		cs := []segJ{{C: hx2([]byte("early"))}, {C: hx2([]byte("late-1"))}, {C: hx2([]byte("late-2"))}, {E: "eof"}}
 		hold := 1
@@ -850,7 +850,7 @@ func tunnelCorpus() []interface{} {
 		}
 		for _, tr := range []string{"script", "tcp"} {
 			out = append(out, tunIn{Path: p, Transport: tr, Routed: true, Pxy: true, Host: "a.example", Raddr: a4, Laddr: l4, DynRoute: "port",
-				Csegs: cs, Usegs: []string{hx2([]byte("srv"))}, Order: "client", Reply: []string{}, DialMs: 60, PauseMs: 200, Hold: hold})
+				Csegs: cs, Usegs: []string{hx2([]byte("srv"))}, Order: "client", Reply: []string{}, DialMs: 300, PauseMs: 950, Hold: hold})
 		}
 	}
 	// the client finishes first with a large final burst, the upstream consumes slowly
